@@ -4,6 +4,36 @@ import json, subprocess, sys, os
 V = os.path.dirname(os.path.dirname(os.path.abspath(__file__)))
 
 CHECKS = {
+ "C01": dict(
+   text="Bounded-exhaustive exploration of the real write path: every (key, degree 1..15 x quality, dictionary look-up, bass) chord (quick: the two faces no-bass and bass x {'', m7}; thorough: the full 8.98 M product), the key-in-force state graph (29 states x 58 operations, BFS to fixpoint, every edge replayed on the implementation), all key-change histories of length <= 4 over {chord, rest} x {-, Cb, F#m, A} with and without --key, and a CLI slice for the glue in package main; struck pitches decoded by an independent SMF reader and compared chord by chord with 60+tonic+degree(+tone | +bass-12).",
+   note="Trusted: ref/theory, ref/dict (own expansion of chord/*.yml on disk, parent first), ref/smf, yaml.v3. Verdict relative to the alphabets; unbounded only for the key-in-force graph under the abstraction that the key in force is the only carried state that pitches depend on.",
+   technique="bounded-exhaustive enumeration of chords and key-change histories + explicit-state BFS of the key-in-force machine on the real code vs. reference model",
+   ref="DESIGN.md §4 C01"),
+ "C02": dict(
+   text="All histories up to length 3 (thorough: 4-5 on sub-alphabets) over {chord, chord, rest} x 24 duration lists incl. non-unit numerators, denominators not dividing 960, exact half-tick ties and several fractions per instance, on 1 and 3 tracks, through the real write path; note-on/off ticks compared with exact rational arithmetic (either neighbour on ties), release-before-strike per track; plus explicit-state accounting of the real midix writer (state = writer pending + per-track pending delays via hook, clock invariant in every state).",
+   note="Trusted: math/big, ref/smf. Bounded: histories up to the stated lengths; the accounting search is depth-capped (values grow without bound).",
+   technique="bounded-exhaustive history enumeration + explicit-state search with a clock invariant on the real writer",
+   ref="DESIGN.md §4 C02"),
+ "C04": dict(
+   text="Every string up to length 5/6 over a 17-character alphabet, every one-character extension of every reference-viable prefix up to length 6/7, every edge of the (LR stack, growing token, lexer mode, in-comment) state graph of chords.y (built to fixpoint in the reference, every edge replayed on the real lexer+parser with token stream, lexer-mode hook, verdict and tree compared; live targets completed by their shortest accepting suffix, dead ones followed by every 2 further characters), every viable token-kind prefix up to 11/14 tokens, pumped loops, and a CLI slice; oracle = documented tokeniser + SLR(1) recogniser derived from chords.y on disk (cross-checked against Earley) + independent tree builder; shipped parser bound to chords.y by goyacc regeneration.",
+   note="Trusted: the reading of the documented tokenisation in ref/chordlang; goyacc regeneration is a supporting step, not enumeration; the LALR stack itself is not observed.",
+   technique="bounded-exhaustive string enumeration + explicit-state search of the grammar x lexer-mode graph with every model edge replayed on the implementation",
+   ref="DESIGN.md §4 C04"),
+ "C06": dict(
+   text="All histories up to length 3/4 over 7 instance shapes x every track count 1..32 (one length more for N in {1,2,3,4,7}) through the real write path, in-process and through the binary: merged (tick,event) multiset equal to that of --track 1, every end-of-track at the exact total, N chunks; explicit-state accounting of the real writer with Close (every track stands at the total after Close).",
+   note="Trusted: ref/smf, ref/timing. Bounded by history length and N <= 32; accounting depth-capped.",
+   technique="bounded-exhaustive history x configuration enumeration with a metamorphic oracle + explicit-state search with a clock invariant",
+   ref="DESIGN.md §4 C06"),
+ "C07": dict(
+   text="Deviation-bounded choice-tree search over settings histories (kind chord/rest free; each present setting of bpm, meter, key, velocity, txt, lic, mrk is one deviation; length <= 3 with <= 3/4 deviations, length <= 4 with <= 2/3), value sweeps of every setting over its domain at instance 0 and after a rest, 16 flag subsets x 256 two-instance documents (binary and in-process), and an explicit-state search of the real midiArgs cells to fixpoint (243 value-class states x 64 operations, calls emitted into a recording writer compared on every edge).",
+   note="Trusted: ref/play, ref/theory, ref/smf; velocities are learned from the run (order, not numbers, is prescribed). Unbounded only for the midiArgs graph under its stated abstraction.",
+   technique="deviation-bounded stateless search + explicit-state BFS to fixpoint on the real settings machine vs. reference model",
+   ref="DESIGN.md §4 C07"),
+ "C08": dict(
+   text="Every file produced for all histories up to length 2/3 over 13 instance shapes (incl. out-of-range degrees, bass doubling a tone, long text) x track counts up to 256, every --program 0..255, instrument names around the VLQ boundary, through the binary and in-process, parsed by a strict SMF reader written from the specification that shares no code with the writer; format/ntrks/one-EOT-last/balanced notes/control events in track 0.",
+   note="Trusted: ref/smf. Bounded by the stated alphabets; N >= 65536 excluded.",
+   technique="bounded-exhaustive enumeration of documents x configurations on the real code vs. a strict independent SMF decoder",
+   ref="DESIGN.md §4 C08"),
  "C13": dict(
    text="Complete enumeration of the finite space the property quantifies over: all 42 spellings [A-G][#b]?m? through three observation paths (op.NewScale in-process, `crd info key describe`, `crd info key list`) of the real code, each compared with an independent line-of-fifths model; unbounded verdict because the space is finite.",
    note="Trusted: ref/theory (line-of-fifths arithmetic, independent of op/scale.go), yaml.v3, Go runtime.",
